@@ -57,7 +57,10 @@ def run_rules(prop, root, tier, only_rule=None, repo=None, use_reference=True):
       errors.append('%s: internal error %s: %s [%s]' % (spec.id, type(e).__name__, e, ' | '.join(x.strip() for x in tb[-7:])))
     R.consulted = repo.trace
     repo.trace = None
-    if (R.findings or R.error) and use_reference:
+    if R.inconclusive and not R.error:
+      R.error = 'inconclusive: %d instance(s) not recognisable, first: %s [%s:%d] %s' % (len(R.inconclusive), R.inconclusive[0][0][:90], R.inconclusive[0][1], R.inconclusive[0][2], R.inconclusive[0][3][:160])
+      errors.append('%s: %s' % (spec.id, R.error))
+    if (R.findings or R.error) and use_reference and not os.environ.get('VF_NO_REFERENCE'):
       if reference.reuse(R, repo):
         errors[:] = [e for e in errors if not e.startswith(spec.id + ':')]
   return ctx, errors
